@@ -397,6 +397,7 @@ def run(ctx, out, tier):
         out.inst("C11.once", 0, 4)
     shared.sh_err(ctx, out, bodies, floor=300)
     shared.sh_main(ctx, out)
+    shared.sh_traverse(ctx, out)
     return meta()
 
 
